@@ -451,21 +451,21 @@ theorem range_eq_filter_partition_with_rebuilds (ts : Nat → Nat → Int) (opss
       (PartScan.fullPositions (metasOfOps ts opss 0) 0).filter (fun kp => decide (inRange r (ts kp.1 kp.2))) :=
   range_eq_filter_partition ts _ r (allComplete_of_monotoneChunkOps ts opss 0 h)
 
-/-! ## index entries older than their chunk (fix a2ca477) — what is left of finding #46 -/
+/-! ## index entries older than their chunk (snapshot entries after a crash: fixes a2ca477 + 7ea0278) -/
 
-/-- **stale_entry_relight_sound**: when `syncChunks` finds a chunk with `m` confirmed records but an index entry that
-accounts for fewer (a reader ran between `Journal.Write` and `onWriteCIndex` of a writer, or the entry comes from a
-snapshot written before a crash), it drops the entry and `lightFill` re-derives it from the first and last confirmed
-record. On monotone int64 data the re-derived entry is sound for all `m` records, whatever the old entry was. -/
+/-- **stale_entry_relight_sound**: when `syncChunks` finds a chunk with `m` confirmed records but an index entry READ
+FROM THE SNAPSHOT FILE that accounts for fewer (the snapshot was written before a crash; since fix 7ea0278 entries of a
+running server are never dropped — regenerated fact `staleDropOnlyForSnapshotEntries`), it drops the entry and
+`lightFill` re-derives it from the first and last confirmed record. On monotone int64 data the re-derived entry is sound for all `m` records, whatever the old entry was. -/
 theorem stale_entry_relight_sound {tsOf : Nat → Int} {c : ChunkHist.ChunkIdx} (m : Nat) (hs : RebuildHist.SoundL tsOf c)
     (hm : Monotone tsOf m) (hlow : ∀ q, q < m → minI64 ≤ tsOf q) :
     RebuildHist.SoundL tsOf (RebuildHist.relight tsOf m c) :=
   RebuildHist.relight_sound m hs hm hlow
 
-/-- **fresh_query_in_notification_window_complete** — the part of finding #46 the repair a2ca477 removed: a NEW query
-(its selector's first status request synchronises the index with the journal) issued while `m` records are confirmed but
-the index has been told about fewer gets a complete window for every range: no readable in-range event is hidden. -/
-theorem fresh_query_in_notification_window_complete {tsOf : Nat → Int} {c : ChunkHist.ChunkIdx} (m : Nat)
+/-- **stale_snapshot_entry_window_complete**: after the re-derivation every range gets a complete window over all `m`
+confirmed records: no readable in-range event is hidden behind a hull taken before the crash (C07's F06, seen from the
+ranged read). It does NOT apply to finding #46: there the entry is live, not loaded, and is kept. -/
+theorem stale_snapshot_entry_window_complete {tsOf : Nat → Int} {c : ChunkHist.ChunkIdx} (m : Nat)
     (hs : RebuildHist.SoundL tsOf c) (hstale : c.n < m) (hm : Monotone tsOf m) (hlow : ∀ q, q < m → minI64 ≤ tsOf q)
     (hn : m ≤ maxU32) (r : TmRange) (p : Nat) (hp : p < m) (hr : inRange r (tsOf p)) :
     ∃ h, (RebuildHist.relight tsOf m c).hull = some h ∧
@@ -487,8 +487,8 @@ theorem fresh_query_in_notification_window_complete {tsOf : Nat → Int} {c : Ch
   rw [hnn] at this
   exact this
 
-/-- **late_notification_sound**: the writer's notification that arrives after its records were already accounted for by
-the re-derived entry (`a ≤ n`, no tree yet) leaves a sound entry; every later write / rebuild then preserves soundness
+/-- **late_notification_sound**: a notification for positions the tree-less entry already accounts for (`a ≤ n`: after a
+re-derivation or after a rebuild that saw nothing) leaves a sound entry; every later write / rebuild then preserves soundness
 (`RebuildHist.runOpsFrom_sound`). -/
 theorem late_notification_sound {tsOf : Nat → Int} {c : ChunkHist.ChunkIdx} (bigGap a k : Nat) (mn mx : Int)
     (hs : RebuildHist.SoundL tsOf c) (hk : 0 < k) (ha : a ≤ c.n) (hm : Monotone tsOf (max c.n (a + k)))
@@ -496,8 +496,8 @@ theorem late_notification_sound {tsOf : Nat → Int} {c : ChunkHist.ChunkIdx} (b
     RebuildHist.SoundL tsOf (RebuildHist.lateNotify bigGap c a k mn mx) :=
   RebuildHist.lateNotify_sound bigGap a k mn mx hs hk ha hm he
 
-/-- the schedule of section `hullrace`: 10 records indexed, 10 more confirmed but not yet notified; the entry is re-derived
-as hull [100, 209] without a tree, the late notification then starts a tree at position 10 -/
+/-- 10 records accounted for by the snapshot entry, 20 confirmed in the chunk: the entry is re-derived as hull [100, 119]
+without a tree; a notification for positions 10…19 then starts a tree at position 10 -/
 example : (RebuildHist.relight (fun q => 100 + q) 20
       (RebuildHist.runOps 250 5000 minI64 (fun q => 100 + q) [.write 10 100 109])).hull = some ⟨100, 119⟩ ∧
     (RebuildHist.lateNotify 5000 (RebuildHist.relight (fun q => 100 + q) 20
